@@ -9,7 +9,7 @@
 From Coq Require Import Ascii String List Bool Arith ZArith NArith Lia.
 From PTBase Require Import Exn PyStr PyNum PyVal Fmt FixedFormat.
 From PTModel Require Import Fortran.
-From Gen Require Import GenTables.
+From Gen Require Import GenTables GenRead.
 From P Require Import Num Names.
 Import ListNotations.
 Open Scope string_scope.
@@ -198,14 +198,24 @@ Definition read_timing (L : layouts) (tr : bool) (ls : list str) : res (option t
     | _ => Raise ValueError
     end.
 
-Definition read_L (L : layouts) (nv : option nat) (check : bool) (ls : list str) : res incon :=
+(** [self.read(filename, ...)] on an object whose simulator attribute is TOUGHREACT ([tr0]) or TOUGH2:
+    [read] empties the blocks and the timing but never sets the flavour back, so an object that once
+    held a TOUGHREACT file stays TOUGHREACT whatever is read into it next -- and cuts the timing
+    record of the next file with the TOUGHREACT layout (recorded defect; [tr0 = false] is the fresh
+    object of [t2incon(filename)]).  Whether the current [read] sets the flavour back first is read from
+    the source on every run ([Gen/GenRead.v], [read_resets_flavour]) *)
+Definition read_used_L (L : layouts) (tr0 : bool) (nv : option nat) (check : bool) (ls : list str) : res incon :=
   let '(_, r0) := readline ls in                    (* infile.readline()  # skip header *)
-  do rb <- read_blocks (S (length r0)) L nv check false [] r0;
+  do rb <- read_blocks (S (length r0)) L nv check tr0 [] r0;
   let '(acc, tr, tm, r1) := rb in
   do t <- (if tm then read_timing L tr r1 else Ok None);
   Ok {| sim := if tr then TOUGHREACT else TOUGH2; blocks := rev' acc; timing_ := t |}.
+Definition read_L (L : layouts) (nv : option nat) (check : bool) (ls : list str) : res incon := read_used_L L false nv check ls.
 Definition read (nv : option nat) (check : bool) (ls : list str) : res incon :=
   do L <- the_layouts; read_L L nv check ls.
+(** nothing else of the object read into survives: blocks, timing, variables are those of the file *)
+Definition read_used (old : incon) (nv : option nat) (check : bool) (ls : list str) : res incon :=
+  do L <- the_layouts; read_used_L L (simk_eqb (sim old) TOUGHREACT && negb read_resets_flavour) nv check ls.
 
 (** ** what one write/read cycle turns an object into *)
 Definition cn (f : fspec) (o : option pnum) : option pnum := to_onum (canon_field f (on o)).
